@@ -101,6 +101,8 @@ def gen_writer_program(rng, x, kind="mixed", types=None, nsig=None, twr=False, m
                    "rate": rng.choice([1000, 1, 48000, 2000000, 1000000000]), "base": base, "tbase": rng.choice([0, 1700000000 * (1 << 30)]),
                    "next": first, "first": first, "end": first + total, "norm": (nspd, nsdf, neps, nsumdf),
                    "defined": False, "nanno": 0, "nutc": 0, "written": 0, "anno_ts": first, "utc_id": first, "utc_t": 0,
+                   # fixed-point position of integer types (part of the data type word; the stored samples are the same bits)
+                   "q": rng.choice([0, 0, 0, 0, 3, 8, 252]) if not dt.startswith("f") else 0,
                    "gen": rng.choice([g_ for g_ in gens if g_[0] != "ramp" or g_[1] <= ramp_limit(dt)]) if gens
                           else (["bpat", rng.choice([0x10, 0x31, 0x73, 0xF5, 0x55, 0xAA, 0x01, 0x80, 0x33, rng.randint(0, 255)])]
                                 if WIDTH[dt] <= 8 and rng.random() < 0.3 else ["rnd"])}
@@ -109,7 +111,7 @@ def gen_writer_program(rng, x, kind="mixed", types=None, nsig=None, twr=False, m
     def define(g):
         s = sigs[g]
         ops.append({"op": "signal", "id": g, "src": s["src"], "dt": s["dt"], "rate": s["rate"], "spd": s["spd"], "sdf": s["sdf"],
-                    "eps": s["eps"], "sumdf": s["sumdf"], "adf": s["adf"], "udf": s["udf"],
+                    "eps": s["eps"], "sumdf": s["sumdf"], "adf": s["adf"], "udf": s["udf"], "q": s["q"],
                     "name": lit("sig%d" % g) if not big_strings else ["rep", rng.choice([0, 1, 300, 70000]), g],
                     "units": rng.choice([None, lit("V"), lit("")]), "base": s["base"], "tbase": s["tbase"]})
         s["defined"] = True
